@@ -5,7 +5,8 @@ Model of the expression parser's grouping logic and of numeric-literal typing
 (`rusty_parser/src/expr/{binary_expression,unary_expression,types,integer_or_long_literal}.rs`,
 `rusty_bit_vec::BitVec::{push_hex,push_oct,convert_to_int_or_long_expr}`), for the tree as repaired
 by the `fix:` commits for F1 (rank-order `should_flip_binary`), F2 (`apply_unary_priority_order`
-repeats on the left operand) and F3 (decimal literals above `u32::MAX`, `-32768`).
+repeats on the left operand) and F3 (decimal literals above `u32::MAX`, `-32768`, and the sign of a
+negative decimal literal folded before its type is chosen).
 
 The two rotation predicates are NOT hand-written here: they are the tables in `Gen/ExprTables.lean`,
 extracted from the real `should_flip_binary` / `should_flip_unary` on every run.
@@ -204,14 +205,27 @@ inductive Lit where
   | overflow
   deriving DecidableEq, Repr, Inhabited
 
-/-- `process_dec` (after the F3 repair): `parse::<u32>` succeeds up to 4294967295 and the value is
-classified against `MAX_INTEGER` / `MAX_LONG`; otherwise `parse::<f64>`. -/
-def decLit (n : Nat) : Lit :=
+/-- `process_dec(token, negative)`: `parse::<u32>` succeeds up to 4294967295; the value, with the sign
+the caller has already consumed (`negative_dec_parser`, reached from `negative_number_literal` for a
+minus sign directly followed by digits), is classified against the INTEGER and LONG ranges;
+otherwise `parse::<f64>`, negated if `negative`. -/
+def processDec (negative : Bool) (n : Nat) : Lit :=
+  let v : Int := if negative then -(n : Int) else (n : Int)
   if n ≤ 4294967295 then
-    if n ≤ 32767 then .int n
-    else if n ≤ 2147483647 then .long n
-    else .double n
-  else .double n
+    if -32768 ≤ v ∧ v ≤ 32767 then .int v
+    else if -2147483648 ≤ v ∧ v ≤ 2147483647 then .long v
+    else .double v
+  else .double v
+
+/-- A run of decimal digits (`integer_or_long_literal::parser`). -/
+def decLit (n : Nat) : Lit := processDec false n
+
+/-- A minus sign directly followed by a run of decimal digits (`unary_expression::negative_number_literal`). -/
+def negDecLit (n : Nat) : Lit := processDec true n
+
+/-- Value of a digit string in the given base (most significant digit first): what `parse::<u32>` /
+`parse::<f64>` read from a `Digits` token, leading zeros included. -/
+def digitsVal (base : Nat) (ds : List Nat) : Nat := ds.foldl (fun acc d => base * acc + d) 0
 
 /-- `BitVec::push_hex`: four bits, most significant first. -/
 def pushHex (d : Nat) : List Bool := [d / 8 % 2 == 1, d / 4 % 2 == 1, d / 2 % 2 == 1, d % 2 == 1]
@@ -250,7 +264,8 @@ def hexLit (ds : List Nat) : Lit :=
 def octLit (ds : List Nat) : Lit :=
   convertBits ((ds.dropWhile (· == 0)).flatMap pushOct)
 
-/-- The literal branches of `Expression::unary_minus` (after the F3 repair for `-32768`). -/
+/-- The literal branches of `Expression::unary_minus` (reached for `-&H..`, `-&O..`, `--5`; a minus sign
+directly followed by decimal digits no longer comes here, see `negDecLit`). -/
 def negLit : Lit → Lit
   | .int n => if n ≤ -32768 then .long (-n) else .int (-n)
   | .long n =>
